@@ -120,17 +120,29 @@ def path_id(path):
 
 
 class SimFS:
-    def __init__(self, sched):
+    """buffered=False: a write is visible to readers at once (text and terminator separately);
+    buffered=True: written data sits in the writer's user-space buffer, invisible to readers, until flush()/close() —
+    both are legal behaviours of a real file object (short lines are buffered, long ones are written through), and a
+    correct storage is safe under both.  The digest shows the logical content (file + pending) in either mode."""
+
+    def __init__(self, sched, buffered=False):
         self.sched = sched
-        self.files = {}  # path -> list of writes ("T5", "\n", …)
+        self.buffered = buffered
+        self.files = {}  # path -> list of writes ("T5", "\n", …) that reached the file
+        self.pending = {}  # path -> list of writes still in a writer's buffer
+
+    def logical(self, path):
+        return self.files.get(path, []) + self.pending.get(path, [])
 
     def open(self, path, mode="r", *a, **k):
         self.sched.visible("open")
         self.sched.record("open", f"{path_id(path)} {mode}")
         if mode == "w":
             self.files[path] = []
+            self.pending[path] = []
         elif mode == "a":
             self.files.setdefault(path, [])
+            self.pending.setdefault(path, [])
         elif path not in self.files:
             raise FileNotFoundError(path)
         return SimFile(self, path, mode)
@@ -141,6 +153,7 @@ class SimFS:
         if path not in self.files:
             raise FileNotFoundError(path)
         del self.files[path]
+        self.pending.pop(path, None)
 
 
 class SimFile:
@@ -153,18 +166,30 @@ class SimFile:
 
     def tell(self):
         self.fs.sched.visible("tell")
-        n = len(self.fs.files[self.path])
+        n = len(self.fs.logical(self.path))
         self.fs.sched.record("tell", n)
         return n
 
     def write(self, s):
         self.fs.sched.visible("write")
-        self.fs.files[self.path].append(s)
-        self.fs.sched.record("write", "NL" if s == "\n" else s)
+        # one write call may carry several tokens ("T5\n"): keep the token structure
+        import re as _re
+        toks = [t for t in _re.split(r"(\n)", s) if t != ""]
+        if self.fs.buffered:
+            self.fs.pending.setdefault(self.path, []).extend(toks)
+        else:
+            self.fs.files[self.path].extend(toks)
+        self.fs.sched.record("write", "NL" if s == "\n" else s.replace("\n", "/"))
         return len(s)
+
+    def _drain(self):
+        if self.path in self.fs.files:
+            self.fs.files[self.path].extend(self.fs.pending.get(self.path, []))
+        self.fs.pending[self.path] = []
 
     def flush(self):
         self.fs.sched.visible("flush")
+        self._drain()
         self.fs.sched.record("flush")
 
     def seek(self, off):
@@ -185,13 +210,16 @@ class SimFile:
         return "".join(out)
 
     def close(self):
+        if self.mode in ("w", "a") and not self.closed:
+            self._drain()
         self.closed = True
 
 
 class SCfg:
-    def __init__(self, presize=0, scripts=(), reader_only=()):
+    def __init__(self, presize=0, scripts=(), reader_only=(), buffered=False):
         """scripts: per process a list of ops: ['store', gid, t] | ['read', gid] | ['len'] | ['contig'] | ['iter'] | ['flush']"""
         self.presize = presize
+        self.buffered = buffered
         self.scripts = [[list(op) for op in sc] for sc in scripts]
 
     def model_line(self):
@@ -201,14 +229,14 @@ class SCfg:
         return f"cfg {self.presize} " + " | ".join(parts)
 
     def to_json(self):
-        return dict(presize=self.presize, scripts=self.scripts)
+        return dict(presize=self.presize, scripts=self.scripts, buffered=self.buffered)
 
 
 class StorageEnv:
     def __init__(self, cfg: SCfg):
         self.cfg = cfg
         self.sched = Scheduler()
-        self.fs = SimFS(self.sched)
+        self.fs = SimFS(self.sched, getattr(cfg, "buffered", False))
         self.patches = []
         self.results = [[] for _ in cfg.scripts]
         self.storage = None
@@ -300,8 +328,8 @@ class StorageEnv:
 
     def digest(self):
         idx = ",".join("-" if e is None else f"{e[0]}:{e[1]}" for e in self.lists["index"].items)
-        files = ";".join(f"{path_id(p)}=" + "".join("/" if w == "\n" else w for w in c)
-                         for p, c in sorted(self.fs.files.items(), key=lambda kv: path_id(kv[0])))
+        files = ";".join(f"{path_id(p)}=" + "".join("/" if w == "\n" else w for w in self.fs.logical(p))
+                         for p in sorted(self.fs.files, key=path_id))
         holder = "-" if self.lock.holder is None else self.lock.holder.name[1:]
         return f"idx:{idx}|cnt:{self.values['cnt']._v}|wf:{self.values['wf']._v}|lock:{holder}|files:{files}"
 
